@@ -62,7 +62,18 @@ macro "np_step" : tactic => `(tactic| first
   | (refine NP_bind _ _ ?_ ?_) | (refine NP_ite _ _ _ ?_ ?_) | (refine NP_map _ _ ?_) | (refine NP_mapM _ _ ?_) | (intro _) | split)
 macro "np" : tactic => `(tactic| repeat np_step)
 
-theorem NP_toStrIface (v : GoVal) : NP (toStrIface v) := by unfold toStrIface; np
+theorem NP_sprintExt (e : Ext) (v : GoVal) : NP (sprintExt e v) := by unfold sprintExt; np
+
+theorem NP_toStrDyn (e : Ext) (v : GoVal) : NP (toStrDyn e v) := by
+  have := fun x => NP_sprintExt e x
+  unfold toStrDyn; np
+
+theorem NP_toStrIface (e : Ext) (v : GoVal) : NP (toStrIface e v) := by
+  unfold toStrIface
+  split
+  · exact NP_toStrDyn e _
+  · exact NP_pure _
+  · exact NP_toStrDyn e _
 
 theorem NP_parseTagTo (e : Ext) (t : Bytes) (h : Bool) : NP (parseTagTo e t h) := by unfold parseTagTo; np
 
@@ -79,11 +90,11 @@ theorem NP_ruleTo (e : Ext) (a c d : Bytes) (v : GoVal) (h : Bool) : NP (ruleTo 
     simp only
     np
 
-theorem NP_ruleEq (a c d : Bytes) (v : GoVal) (w : Bool) : NP (ruleEq a c d v w) := by
+theorem NP_ruleEq (e : Ext) (a c d : Bytes) (v : GoVal) (w : Bool) : NP (ruleEq e a c d v w) := by
   unfold ruleEq
-  rcases eqCore a v with ⟨x, u, cm, e⟩
+  have := NP_toStrIface e v
+  rcases eqCore a v with ⟨x, u, cm, iseq⟩
   simp only
-  have := NP_toStrIface v
   np
 
 theorem indexByte?_spec (c : UInt8) (s : Bytes) (i : Nat) (h : Bytes.indexByte? c s = some i) :
@@ -134,11 +145,11 @@ theorem reScan_bound (rest : Bytes) (i0 : Nat) (acc pat : Bytes) (i : Nat) (h : 
       · have := ih (i0 + 1) (v :: acc) h
         simp at this ⊢; omega
 
-theorem NP_ruleIn (a c d : Bytes) (v : GoVal) : NP (ruleIn a c d v) := by
+theorem NP_ruleIn (e : Ext) (a c d : Bytes) (v : GoVal) : NP (ruleIn e a c d v) := by
   unfold ruleIn
   rcases parseValidNameKV a with ⟨k, tv, cm⟩
   simp only
-  have := NP_toStrIface v
+  have := NP_toStrIface e v
   cases hl : Bytes.indexByte? 40 tv <;> cases hr : lastIndexByte 41 tv <;> simp only
   · exact NP_pure _
   · exact NP_pure _
@@ -215,28 +226,28 @@ theorem NP_ruleRe (e : Ext) (a c d : Bytes) (v : GoVal) : NP (ruleRe e a c d v) 
         rcases parseValidNameKV (x ++ y) with ⟨k, tv, cm⟩
         np
 
-theorem NP_ruleInt (a c d : Bytes) (v : GoVal) : NP (ruleInt a c d v) := by
+theorem NP_ruleInt (e : Ext) (a c d : Bytes) (v : GoVal) : NP (ruleInt e a c d v) := by
   unfold ruleInt
   rcases parseValidNameKV a with ⟨k, tv, cm⟩
-  have := NP_toStrIface v
+  have := NP_toStrIface e v
   cases v <;> simp only <;> np
 
-theorem NP_ruleFloat (a c d : Bytes) (v : GoVal) : NP (ruleFloat a c d v) := by
+theorem NP_ruleFloat (e : Ext) (a c d : Bytes) (v : GoVal) : NP (ruleFloat e a c d v) := by
   unfold ruleFloat
   rcases parseValidNameKV a with ⟨k, tv, cm⟩
-  have := NP_toStrIface v
+  have := NP_toStrIface e v
   cases v <;> simp only <;> np
 
-theorem NP_ruleInts (a c d : Bytes) (v : GoVal) : NP (ruleInts a c d v) := by
+theorem NP_ruleInts (e : Ext) (a c d : Bytes) (v : GoVal) : NP (ruleInts e a c d v) := by
   unfold ruleInts
   rcases parseValidNameKV a with ⟨k, tv, cm⟩
-  have h := fun x => NP_toStrIface x
+  have h := fun x => NP_toStrIface e x
   cases v <;> simp only <;> np
 
-theorem NP_ruleUnique (a c d : Bytes) (v : GoVal) : NP (ruleUnique a c d v) := by
+theorem NP_ruleUnique (e : Ext) (a c d : Bytes) (v : GoVal) : NP (ruleUnique e a c d v) := by
   unfold ruleUnique
   rcases parseValidNameKV a with ⟨k, tv, cm⟩
-  have h := fun x => NP_toStrIface x
+  have h := fun x => NP_toStrIface e x
   cases v <;> simp only <;> np
 
 theorem NP_ruleJson (e : Ext) (a c d : Bytes) (v : GoVal) : NP (ruleJson e a c d v) := by
@@ -277,10 +288,10 @@ theorem NP_builtinTable : ∀ p ∈ builtinTable, ∀ run, p.2 = .fn run → ∀
   · injection hrun with hrun; subst hrun; exact NP_pure _
   · injection hrun with hrun; subst hrun; exact NP_pure _
   · injection hrun with hrun; subst hrun; exact NP_pure _
-  · injection hrun with hrun; subst hrun; exact NP_ruleEq _ _ _ _ _
-  · injection hrun with hrun; subst hrun; exact NP_ruleEq _ _ _ _ _
-  · injection hrun with hrun; subst hrun; exact NP_ruleIn _ _ _ _
-  · injection hrun with hrun; subst hrun; exact NP_ruleIn _ _ _ _
+  · injection hrun with hrun; subst hrun; exact NP_ruleEq _ _ _ _ _ _
+  · injection hrun with hrun; subst hrun; exact NP_ruleEq _ _ _ _ _ _
+  · injection hrun with hrun; subst hrun; exact NP_ruleIn _ _ _ _ _
+  · injection hrun with hrun; subst hrun; exact NP_ruleIn _ _ _ _ _
   · injection hrun with hrun; subst hrun; exact NP_rulePhone _ _ _ _
   · injection hrun with hrun; subst hrun; exact NP_ruleEmail _ _ _ _
   · injection hrun with hrun; subst hrun; exact NP_ruleIDCard _ _ _ _
@@ -288,14 +299,14 @@ theorem NP_builtinTable : ∀ p ∈ builtinTable, ∀ run, p.2 = .fn run → ∀
   · injection hrun with hrun; subst hrun; exact NP_ruleYear2Month _ _ _ _ _
   · injection hrun with hrun; subst hrun; exact NP_ruleDate _ _ _ _ _
   · injection hrun with hrun; subst hrun; exact NP_ruleDatetime _ _ _ _ _
-  · injection hrun with hrun; subst hrun; exact NP_ruleInt _ _ _ _
-  · injection hrun with hrun; subst hrun; exact NP_ruleInts _ _ _ _
-  · injection hrun with hrun; subst hrun; exact NP_ruleFloat _ _ _ _
+  · injection hrun with hrun; subst hrun; exact NP_ruleInt _ _ _ _ _
+  · injection hrun with hrun; subst hrun; exact NP_ruleInts _ _ _ _ _
+  · injection hrun with hrun; subst hrun; exact NP_ruleFloat _ _ _ _ _
   · injection hrun with hrun; subst hrun; exact NP_ruleRe _ _ _ _ _
   · injection hrun with hrun; subst hrun; exact NP_ruleIp _ _ _ _ _ _
   · injection hrun with hrun; subst hrun; exact NP_ruleIp _ _ _ _ _ _
   · injection hrun with hrun; subst hrun; exact NP_ruleIp _ _ _ _ _ _
-  · injection hrun with hrun; subst hrun; exact NP_ruleUnique _ _ _ _
+  · injection hrun with hrun; subst hrun; exact NP_ruleUnique _ _ _ _ _
   · injection hrun with hrun; subst hrun; exact NP_ruleJson _ _ _ _ _
   · injection hrun with hrun; subst hrun; exact NP_rulePrefix _ _ _ _ _
   · injection hrun with hrun; subst hrun; exact NP_rulePrefix _ _ _ _ _
@@ -460,9 +471,15 @@ end PGV.Proofs.Total
 namespace PGV.Proofs.Total
 open PGV PGV.Model
 
-theorem NP_bothEqClause (ms : List Member) : NP (bothEqClause ms) := by unfold bothEqClause; np
+theorem NP_deepEq (e : Ext) (a c : GoVal) : NP (deepEq e a c) := by unfold deepEq; np
 
-theorem NP_groupClauses (ms : List Member) : NP (groupClauses ms) := by
+theorem NP_bothEqClause (e : Ext) (ms : List Member) : NP (bothEqClause e ms) := by
+  have := fun a c => NP_deepEq e a c
+  unfold bothEqClause; np
+  · exact this _ _
+  · np
+
+theorem NP_groupClauses (e : Ext) (ms : List Member) : NP (groupClauses e ms) := by
   unfold groupClauses
   refine NP_mapM _ _ ?_
   intro g
@@ -472,11 +489,11 @@ theorem NP_groupClauses (ms : List Member) : NP (groupClauses ms) := by
     simp only
     rcases parseValidNameKV m.validName with ⟨k, tv, cm⟩
     simp only
-    exact NP_ite _ _ _ (NP_pure _) (NP_ite _ _ _ (NP_bothEqClause _) (NP_pure _))
+    exact NP_ite _ _ _ (NP_pure _) (NP_ite _ _ _ (NP_bothEqClause _ _) (NP_pure _))
 
-theorem NP_finish (st : WSt) : NP (finish st) := by
+theorem NP_finish (e : Ext) (st : WSt) : NP (finish e st) := by
   unfold finish
-  exact NP_bind _ _ (NP_groupClauses _) fun _ => NP_pure _
+  exact NP_bind _ _ (NP_groupClauses _ _) fun _ => NP_pure _
 
 theorem NP_structValid (cfg : StructCfg) (src : Src) : NP (structValid cfg src) := by
   unfold structValid
@@ -489,9 +506,9 @@ theorem NP_structValid (cfg : StructCfg) (src : Src) : NP (structValid cfg src) 
     | some rv =>
       cases rv <;> simp only
       all_goals first
-        | exact NP_bind _ _ (NP_validate _ _ _ _ _) fun _ => NP_finish _
-        | exact NP_bind _ _ (NP_elemsLoop _ _ _ _ _) fun _ => NP_finish _
-        | exact NP_bind _ _ (NP_entriesLoop _ _ _ _) fun _ => NP_finish _
+        | exact NP_bind _ _ (NP_validate _ _ _ _ _) fun _ => NP_finish _ _
+        | exact NP_bind _ _ (NP_elemsLoop _ _ _ _ _) fun _ => NP_finish _ _
+        | exact NP_bind _ _ (NP_entriesLoop _ _ _ _) fun _ => NP_finish _ _
 
 theorem NP_varValid (ext : Ext) (fns : FnTables) (rules : List Bytes) (src : Src) : NP (varValid ext fns rules src) := by
   unfold varValid
@@ -547,8 +564,8 @@ theorem NP_mapValid (ext : Ext) (fns : FnTables) (rm : RM) (src : Src) : NP (map
     | some rv =>
       cases rv <;> simp only
       all_goals first
-        | exact NP_bind _ _ (NP_mapValidate _ _ _ _ _) fun _ => NP_finish _
-        | exact NP_bind _ _ (NP_mapElems _ _ _ _ _) fun _ => NP_finish _
+        | exact NP_bind _ _ (NP_mapValidate _ _ _ _ _) fun _ => NP_finish _ _
+        | exact NP_bind _ _ (NP_mapElems _ _ _ _ _) fun _ => NP_finish _ _
 
 theorem NP_urlParams (c : FlatCfg) (rm : RM) (ps : List Bytes) (st : WSt) : NP (urlParams c rm ps st) := by
   induction ps generalizing st with
@@ -567,7 +584,7 @@ theorem NP_urlValid (ext : Ext) (fns : FnTables) (rm : RM) (src : UrlSrc) : NP (
   | str s =>
     simp only
     cases queryUnescape s with
-    | none => exact NP_bind _ _ (NP_askExt _ _) fun _ => NP_finish _
-    | some dec => exact NP_bind _ _ (NP_urlParams _ _ _ _) fun _ => NP_finish _
+    | none => exact NP_bind _ _ (NP_askExt _ _) fun _ => NP_finish _ _
+    | some dec => exact NP_bind _ _ (NP_urlParams _ _ _ _) fun _ => NP_finish _ _
 
 end PGV.Proofs.Total
